@@ -366,9 +366,17 @@ def check_serialized(ctx):
             ok, detail = True, 'written as the JSON form of the value itself'
             arg = call.args[0] if call.args else None
             if g is not None:
-                body = [b for b in g.node.body if not (
-                    isinstance(b, ast.Expr)
-                    and isinstance(b.value, ast.Constant))]
+                def inert(b):
+                    if isinstance(b, ast.Expr) and isinstance(
+                            b.value, ast.Constant):
+                        return True
+                    if isinstance(b, ast.Expr) and isinstance(
+                            b.value, ast.Call) and U(
+                                b.value.func).split('.')[0] in (
+                                    'LOG', 'logging', 'warnings'):
+                        return True
+                    return False
+                body = [b for b in g.node.body if not inert(b)]
                 if not (len(body) == 1 and isinstance(body[0], ast.Return)
                         and isinstance(body[0].value, ast.Call)
                         and (prog.resolve(g.module, body[0].value.func)
